@@ -1,6 +1,352 @@
-//! C19 — stub (not built yet).
+//! C19 — the new-API codec (`domain::new::{base,rdata,edns}`, feature
+//! `unstable-new`) and the established codec (`domain::base`, `domain::rdata`)
+//! agree on the wire format.
+//!
+//! Sub-checks
+//! * `diff_msg`   — hostile messages (valid structured messages, 1-3
+//!   adversarial wire mutations, raw octets) read by both codecs item by item
+//!   in wire order (`diff::diff_message`).
+//! * `diff_rdata` — messages that are well-formed except for the RDATA
+//!   *content* of records of types both APIs model (`cgen::rdata_message`).
+//! * `diff_item`  — standalone name / question / record at an arbitrary
+//!   offset of a hostile message (low-level `split_message_bytes` /
+//!   `parse_message_bytes` against `ParsedName::parse`, `Question::parse`,
+//!   `ParsedRecord::parse` + `AllRecordData`).
+//! * `diff_raw`   — data = message octets; entry for the libFuzzer target.
+//! * `build`      — build scripts executed on both builders; every output
+//!   is read by the OTHER codec and by `refimpl::wire`, compared with the
+//!   script, pointer-audited, and fed to `diff_message` again.
+//! * `build_regress` — ten hand-written scripts (sweep), the minimal forms of
+//!   the builder/compressor defects found (C19-X4 … X9).
+//!
+//! Normalised view compared: (section, owner labels, type, class, ttl,
+//! RDATA). RDATA of a type BOTH APIs model (`view::SHARED`) is compared
+//! three ways: each side's uncompressed re-serialisation against the other
+//! and against the walker's normal form, and each side's typed accessors
+//! against the fields the independent table cuts out of that normal form.
+//! For every other type the two "unknown" views must carry the octets of
+//! the message. The first rejection ends the comparison (the new
+//! `MessageParser` is fused, the old reader is forced to be eager).
+//!
+//! # Points on which the codecs may differ without violating C19
+//!
+//! Every exclusion is a predicate on the INPUT (module `pred`), evaluated
+//! before either outcome is looked at, and counted as `excluded:<reason>`.
+//!
+//! | id | input predicate | old | new | why not normative |
+//! |----|-----------------|-----|-----|-------------------|
+//! | E1 | a name the permissive walker accepts has a pointer whose target is < 12 (inside the header) | follows it if the header octets happen to parse as labels | rejects (`checked_sub(12)`) | RFC 1035 §4.1.4: a pointer replaces "an entire domain name or a list of labels at the end of a domain name" by a reference "to a prior occurance of the same name"; the header holds no name. No sender produces it; either reaction is defensible. |
+//! | E2 | … has a pointer whose target lies inside the segment it belongs to (at or after the segment's first octet, before the pointer) and does not loop | accepts (`ptr < position of the pointer`) | rejects (`target >= start of current segment`) | same sentence: the target is part of the name being written, not a prior occurrence. |
+//! | E3 | RDATA of SRV, DNAME, RRSIG or NSEC whose embedded name reaches a compression pointer | decompresses | models the name as plain data, rejects | RFC 3597 §4: only the RFC 1035 types are "well-known"; receivers "SHOULD also decompress" a fixed list (RP, SRV, …), nothing is said for the rest; RFC 2782, RFC 6672 §2.5, RFC 4034 §3.1.7/§4.1.1 forbid senders to compress these names. (That the new *builder* compressed DNAME targets is NOT excluded: finding C19-X9.) |
+//! | E4 | extended-error option (code 15) whose EXTRA-TEXT is not UTF-8 | keeps it (`text()` = `Some(Err(octets))`) | typed option parser rejects | the statement quantifies over names, questions, records and messages; both codecs accept the OPT *record*. RFC 8914 §2: the text is "intended for human consumption (not automated parsing)". |
+//!
+//! Not excluded (compared, a disagreement is a violation): unknown label
+//! types 01/10, the 255-octet cap, truncated labels, forward pointers,
+//! pointer chains, TTLs with the top bit set, class != IN, OPT outside the
+//! additional section, trailing octets after the last counted record
+//! (neither codec looks at them), counts larger than the content.
+//!
+//! Types only ONE API models (MD MF MB MG MR NULL MINFO NAPTR SSHFP IPSECKEY
+//! TLSA CDS CDNSKEY OPENPGPKEY SVCB HTTPS TSIG CAA on the old side): the old
+//! typed parser is still run (panics count) but its verdict does not; the
+//! unknown views must agree.
+//!
+//! The established compressors emit pointers to offsets >= 0x4000 (C02); scripts
+//! that pad across 16384 therefore run the established builder without a
+//! compressor.
+
 use crate::engine::*;
+use crate::gen::message as gm;
+use crate::gen::*;
+use arbitrary::Unstructured;
+use std::collections::BTreeMap;
+
+pub mod build;
+pub mod cgen;
+pub mod diff;
+pub mod fields;
+pub mod pred;
+pub mod view;
+
+fn finish_diff(msg: &[u8], tags: &[&'static str], st: diff::DiffStats, ctx: &mut Ctx) {
+    if st.pointers {
+        ctx.class("has-pointer");
+    }
+    let nontrivial = (st.compared_ok >= 1 && (st.pointers || st.typed_shared)) || matches!(st.agree_reject, Some(l) if st.compared_ok >= 1 || l != view::Layer::Name);
+    if nontrivial {
+        ctx.nontrivial(&msg);
+        ctx.sample(|| format!("{} octets tags={tags:?} compared_ok={} pointers={} typed_shared={} agree_reject={:?} excluded={:?}: {}", msg.len(), st.compared_ok, st.pointers, st.typed_shared, st.agree_reject, st.excluded, diff::hex(&msg[..msg.len().min(120)])));
+    }
+}
+
+fn run_diff_msg(data: &[u8], ctx: &mut Ctx) -> CaseResult {
+    let r = run_diff_msg_(data, ctx);
+    explore(r, ctx)
+}
+fn run_diff_msg_(data: &[u8], ctx: &mut Ctx) -> CaseResult {
+    let mut u = Unstructured::new(data);
+    let (bytes, tags) = gm::hostile_message(&mut u);
+    for t in &tags {
+        ctx.class(*t);
+    }
+    if bytes.len() > 65535 {
+        return Ok(());
+    }
+    let st = diff::diff_message(&bytes, ctx)?;
+    finish_diff(&bytes, &tags, st, ctx);
+    Ok(())
+}
+
+fn run_diff_rdata(data: &[u8], ctx: &mut Ctx) -> CaseResult {
+    let r = run_diff_rdata_(data, ctx);
+    explore(r, ctx)
+}
+fn run_diff_rdata_(data: &[u8], ctx: &mut Ctx) -> CaseResult {
+    let mut u = Unstructured::new(data);
+    let (bytes, tags) = cgen::rdata_message(&mut u);
+    for t in &tags {
+        ctx.class(*t);
+    }
+    let st = diff::diff_message(&bytes, ctx)?;
+    finish_diff(&bytes, &tags, st, ctx);
+    Ok(())
+}
+
+fn run_build(data: &[u8], ctx: &mut Ctx) -> CaseResult {
+    let r = run_build_(data, ctx);
+    explore(r, ctx)
+}
+/// Hand-written regression scripts (sweep): data = index, little endian.
+fn run_build_regress(data: &[u8], ctx: &mut Ctx) -> CaseResult {
+    let mut b = [0u8; 8];
+    b[..data.len().min(8)].copy_from_slice(&data[..data.len().min(8)]);
+    let Some((name, s)) = build::regress_script(u64::from_le_bytes(b)) else { return Ok(()) };
+    ctx.class(format!("regress:{name}"));
+    for c in 0..4u8 {
+        if c > 0 && s.crosses {
+            // the established compressors beyond offset 0x4000 are C02's business
+            break;
+        }
+        let s = build::Script { old_compressor: c, ..s.clone() };
+        run_script(&s, ctx)?;
+    }
+    Ok(())
+}
+
+fn run_build_(data: &[u8], ctx: &mut Ctx) -> CaseResult {
+    let mut u = Unstructured::new(data);
+    let s = build::script(&mut u, ctx.thorough);
+    run_script(&s, ctx)
+}
+
+fn run_script(s: &build::Script, ctx: &mut Ctx) -> CaseResult {
+    if std::env::var_os("VERIF_DEBUG").is_some() {
+        eprintln!("{}", build::show_script(&s));
+    }
+    if s.crosses {
+        ctx.class("script:pads-to-16384");
+    }
+    if s.limit.is_some() {
+        ctx.class("script:size-limit");
+    }
+    ctx.class(format!("script:old-compressor-{}", s.old_compressor));
+    {
+        let mut names: Vec<&view::Labels> = s.items.iter().map(|i| &i.owner).collect();
+        names.sort();
+        names.dedup();
+        if names.len() > 32 {
+            ctx.class("script:more-than-32-distinct-owners");
+        }
+        if names.len() > 64 {
+            ctx.class("script:more-than-64-distinct-owners");
+        }
+    }
+    // new builder
+    let nb = build::build_new(&s, ctx)?;
+    if nb.expect.failed_pushes > 0 {
+        ctx.class("new:push-failed-then-continued");
+    }
+    if nb.bytes.len() > 0x4000 {
+        ctx.class("new:output-longer-than-16384");
+    }
+    if nb.bytes.len() > 56000 {
+        ctx.class("new:output-longer-than-56000");
+    }
+    let st = build::check_output("new", &nb, ctx)?;
+    if st.pointers > 0 {
+        ctx.class("new:output-has-pointers");
+    }
+    if st.names_after_limit > 0 {
+        ctx.class("new:records-after-16384");
+        if st.pointers > 0 {
+            ctx.class("new:pointers-and-records-after-16384");
+        }
+    }
+    if st.max_pointer_target >= 0x3F00 {
+        ctx.class("new:pointer-target-in-last-256-addressable");
+    }
+    let new_ptrs = st.pointers;
+    // old builder: without compressor, and with the script's compressor
+    let ob = build::build_old(&s, 0)?;
+    if ob.bytes.len() > 0x4000 {
+        ctx.class("old:output-longer-than-16384");
+    }
+    build::check_output("old", &ob, ctx)?;
+    let mut old_ptrs = 0;
+    if s.old_compressor != 0 {
+        let oc = build::build_old(&s, s.old_compressor)?;
+        let st = build::check_output("old", &oc, ctx)?;
+        old_ptrs = st.pointers;
+        if st.pointers > 0 {
+            ctx.class("old:output-has-pointers");
+        }
+    }
+    let nitems = s.items.len() + s.questions.len();
+    if nitems >= 1 && (new_ptrs > 0 || old_ptrs > 0 || s.items.iter().any(|i| view::is_shared(i.rtype))) {
+        ctx.nontrivial(&s);
+        ctx.sample(|| format!("script: {} questions, {} items, edns={}, pad={:?}, limit={:?}, old_compressor={}, reuse={}, truncate={:?}; new output {} octets ({} pointers), old output {} octets", s.questions.len(), s.items.len(), s.edns.is_some(), s.items.iter().find_map(|i| i.pad_delta), s.limit, s.old_compressor, s.reuse_compressor, s.truncate_before, nb.bytes.len(), new_ptrs, ob.bytes.len()));
+    }
+    Ok(())
+}
+
+/// Raw entry: data = message octets (libFuzzer target `c19_diff`).
+pub fn run_diff_raw(data: &[u8], ctx: &mut Ctx) -> CaseResult {
+    if data.len() > 65535 {
+        return Ok(());
+    }
+    ctx.class("raw");
+    let st = diff::diff_message(data, ctx)?;
+    finish_diff(data, &["raw"], st, ctx);
+    Ok(())
+}
+
+/// Hand-written standalone items (sweep): data = index, little endian.
+const ITEM_REGRESS_COUNT: u64 = 3;
+fn run_item_regress(data: &[u8], ctx: &mut Ctx) -> CaseResult {
+    let i = data.first().copied().unwrap_or(0);
+    // header, QDCOUNT=3; Q1 `a.a. A IN` at 12; Q2 `-> 12` at 21; Q3 `-> 21` at 27
+    let mut m = vec![0u8, 1, 1, 0, 0, 3, 0, 0, 0, 0, 0, 0];
+    m.extend_from_slice(&[1, b'a', 1, b'a', 0, 0, 1, 0, 1]);
+    m.extend_from_slice(&[0xC0, 12, 0, 1, 0, 1]);
+    m.extend_from_slice(&[0xC0, 21, 0, 1, 0, 1]);
+    let (off, kind) = match i {
+        0 => (27, 0u8), // a pointer to a name that starts 6 octets earlier (C19-X10)
+        1 => (27, 1u8),
+        _ => (21, 0u8),
+    };
+    ctx.class("regress:item");
+    diff::diff_item_at(&m, off, m.len(), kind, ctx)?;
+    diff::diff_message(&m, ctx)?;
+    Ok(())
+}
+
+fn run_diff_item(data: &[u8], ctx: &mut Ctx) -> CaseResult {
+    let r = run_diff_item_(data, ctx);
+    explore(r, ctx)
+}
+fn run_diff_item_(data: &[u8], ctx: &mut Ctx) -> CaseResult {
+    let mut u = Unstructured::new(data);
+    let kind = pick(&mut u, 3) as u8;
+    let sel = u16_(&mut u) as usize;
+    let lim = u16_(&mut u) as usize;
+    let how = pick(&mut u, 4);
+    let (bytes, tags) = gm::hostile_message(&mut u);
+    if bytes.len() <= 12 || bytes.len() > 65535 {
+        return Ok(());
+    }
+    for t in &tags {
+        ctx.class(*t);
+    }
+    // offset: biased towards item starts found by the walker
+    let off = match how {
+        0 | 1 => {
+            let w = crate::refimpl::wire::walk(&bytes);
+            let mut starts: Vec<usize> = vec![12];
+            if let Some(w) = &w {
+                starts.extend(w.questions.iter().map(|q| q.start));
+                starts.extend(w.records.iter().map(|r| r.start));
+                starts.extend(w.records.iter().map(|r| r.rd_start));
+                starts.push(w.end);
+            }
+            starts[sel % starts.len()]
+        }
+        _ => 12 + sel % (bytes.len() - 12),
+    };
+    let off = off.clamp(12, bytes.len());
+    let limit = if kind == 0 && lim % 3 == 0 { off + (lim / 3) % (bytes.len() - off + 1) } else { bytes.len() };
+    let interesting = diff::diff_item_at(&bytes, off, limit, kind, ctx)?;
+    if interesting {
+        ctx.nontrivial(&(&bytes, off, limit, kind));
+        ctx.sample(|| format!("kind={kind} off={off} limit={limit} tags={tags:?} {}", diff::hex(&bytes[..bytes.len().min(100)])));
+    }
+    Ok(())
+}
+
+/// Exploration aid (not used by any registered command): with
+/// VERIF_C19_EXPLORE set, disagreements are tallied as classes instead of
+/// being reported, so that one run shows every kind of disagreement.
+fn explore(r: CaseResult, ctx: &mut Ctx) -> CaseResult {
+    match r {
+        Err(v) if std::env::var_os("VERIF_C19_EXPLORE").is_some() => {
+            ctx.class(format!("DISAGREE:{}", v.sig));
+            if ctx.sample.is_none() {
+                let d = v.detail.clone();
+                ctx.sample(move || d);
+            }
+            Ok(())
+        }
+        r => r,
+    }
+}
+
+fn health(c: &BTreeMap<String, u64>, _t: bool) -> Result<(), String> {
+    let mut need: Vec<String> = [
+        "has-pointer", "mutated", "valid", "raw", "rdata-focused", "rdata-valid", "walked-to-end",
+        "typed-accessors-compared", "rdata-equals-walker-normal-form", "raw-both:unknown-type",
+        "agree-reject:question:name", "agree-reject:record:name", "agree-reject:record:frame", "agree-reject:record:rdata",
+        "excluded:pointer-into-header", "excluded:pointer-into-own-segment", "excluded:compressed-name-in-non-rfc1035-rdata",
+        "item:name:both-accept:compressed", "item:name:both-reject", "item:question:both-accept", "item:record:both-accept", "item:record:both-reject:rdata",
+        "opt-option-10:both-accept", "opt-option-10:both-reject", "opt-option-15:both-accept", "opt-option-15:both-reject",
+        "script:pads-to-16384", "script:size-limit", "script:more-than-32-distinct-owners", "script:more-than-64-distinct-owners",
+        "script:old-compressor-1", "script:old-compressor-2", "script:old-compressor-3",
+        "new:output-has-pointers", "new:records-after-16384", "new:pointers-and-records-after-16384", "new:pointer-target-in-last-256-addressable",
+        "new:push-failed-then-continued", "new:compressor-reused", "new:truncate-called", "old:output-has-pointers", "old:output-longer-than-16384",
+    ]
+    .iter()
+    .map(|s| s.to_string())
+    .collect();
+    for t in view::SHARED {
+        need.push(format!("typed-both:{}", crate::refimpl::rdata::mnemonic(*t)));
+    }
+    for k in need {
+        if c.get(&k).copied().unwrap_or(0) < 5 {
+            return Err(format!("class {k} starved ({:?})", c.get(&k)));
+        }
+    }
+    Ok(())
+}
 
 pub fn prop() -> Option<Prop> {
-    None
+    Some(Prop {
+        id: "C19",
+        rule: "differential case = message octets (or octets + offset + item kind); non-trivial = both codecs accepted >= 1 item and the message had >= 1 compression pointer or >= 1 RDATA of a type both APIs model, or both codecs rejected the same item after >= 1 accepted item or past its name; distinct by octets (+ offset/kind). build case = script (questions, records of shared/unknown types, EDNS, padding across 16384, size limit, failed pushes, truncate, compressor reuse) executed on the new builder and on the established builder without and with each compressor; non-trivial = >= 1 item and (a pointer was emitted or a record of a shared type was pushed); distinct by script",
+        assumptions: &[
+            "exclusions E1-E4 of the module table (pointer into the header / into the name's own segment, compressed names inside SRV/DNAME/RRSIG/NSEC RDATA, non-UTF-8 extended-error text) are predicates on the input evaluated with refimpl::wire; such items are counted, not compared",
+            "RDATA acceptance is compared only for the 20 types both APIs model; for all others the two unknown views must carry the octets of the message",
+            "names read back from a built message are compared case-insensitively (a compressor may reuse a suffix that differs in case)",
+            "the established builder runs without a compressor in scripts that pad across offset 16384 (pointers >= 0x4000 of the established compressors are C02's finding)",
+            "hash collisions of the new compressor's 16-bit label hash are reached only by chance",
+        ],
+        subchecks: vec![
+            SubCheck::new("diff_msg", run_diff_msg, 600_000, 4_000_000, 1500),
+            SubCheck::new("diff_rdata", run_diff_rdata, 500_000, 4_000_000, 600),
+            SubCheck::sweep("build_regress", run_build_regress, |_| build::REGRESS_COUNT),
+            SubCheck::new("build", run_build, 100_000, 1_000_000, 3000),
+            SubCheck::sweep("item_regress", run_item_regress, |_| ITEM_REGRESS_COUNT),
+            SubCheck::new("diff_raw", run_diff_raw, 100_000, 1_500_000, 700),
+            SubCheck::new("diff_item", run_diff_item, 300_000, 2_000_000, 1500),
+        ],
+        health: Some(health),
+        extra: None,
+    })
 }
